@@ -331,9 +331,7 @@ func (fr *frame) invoke(x *ssa.Call, st *state) {
 	}
 	name := com.Method.Name()
 	g.usedAssumptions["interface method calls ("+name+") are oracles: results are a function of the receiver and the arguments, no effect on modelled memory"] = true
-	if g.U.sortOf(com.Value.Type()) == "Int" {
-		g.safety(fr, st, "nil-iface-call", fr.srcAnchor(x.Pos(), isCall, name), x.Pos(), "(not (= "+recv.S+" 0))")
-	}
+	g.safety(fr, st, "nil-iface-call", fr.srcAnchor(x.Pos(), isCall, name), x.Pos(), "(not (= "+recv.S+" VNil))")
 	sig := com.Signature()
 	var vals []*Term
 	for i := 0; i < sig.Results().Len(); i++ {
